@@ -38,8 +38,15 @@ type Keyper struct {
 	Sender fx.RPCMessageSender
 	Core   *keyper.KeyperCore
 	Inc    int // incarnation counter
+	// Redial: the pool closes a connection whenever it is handed back, so that every database
+	// access opens a new one (lets a run place connect timeouts anywhere)
+	Redial bool
 	sim    *Sim
 }
+
+// RedialKeyper is the index of the keyper NewSim creates with Redial set (-1: none). Cases run one
+// at a time per worker process.
+var RedialKeyper = -1
 
 type Sim struct {
 	N, T     int
@@ -53,6 +60,13 @@ type Sim struct {
 // NewSim creates n keypers (all members of the genesis set and of keyper set 1) and the chain.
 // honest[i]==false means keyper i is not run by repository code (the harness plays it).
 func NewSim(ctx context.Context, seed uint64, n, t int, phaseLen int64, honest []bool) (*Sim, error) {
+	return NewSimSets(ctx, seed, n, t, phaseLen, honest, 1)
+}
+
+// NewSimSets is NewSim with keyper sets 1..sets (same members) known to the keypers from the start:
+// with sets >= 2 the honest keypers vote the next set in as soon as the previous one is on the
+// shuttermint chain, so that two key generations run at the same time.
+func NewSimSets(ctx context.Context, seed uint64, n, t int, phaseLen int64, honest []bool, sets int) (*Sim, error) {
 	u := smchain.NewUniverse(seed, n+1, n+1)
 	members := make([]int, n)
 	var addrs []common.Address
@@ -74,12 +88,12 @@ func NewSim(ctx context.Context, seed uint64, n, t int, phaseLen int64, honest [
 			return nil, err
 		}
 		// the keyper sets as the chain observer would have synced them from the main chain
-		for cfgIdx := int64(0); cfgIdx <= 1; cfgIdx++ {
+		for cfgIdx := int64(0); cfgIdx <= int64(sets); cfgIdx++ {
 			if err := obskeyper.New(node.Pool).InsertKeyperSet(ctx, obskeyper.InsertKeyperSetParams{KeyperConfigIndex: cfgIdx, ActivationBlockNumber: cfgIdx * 50, Keypers: shdb.EncodeAddresses(addrs), Threshold: int32(t)}); err != nil {
 				return nil, err
 			}
 		}
-		k := &Keyper{Idx: i, Cfg: cfg, Node: node, sim: s}
+		k := &Keyper{Idx: i, Cfg: cfg, Node: node, sim: s, Redial: i == RedialKeyper}
 		if err := k.start(ctx); err != nil {
 			return nil, err
 		}
@@ -95,7 +109,11 @@ func (k *Keyper) start(ctx context.Context) error {
 		k.Pool.Close()
 	}
 	k.Inc++
-	pool, err := k.Node.DB.Connect(ctx, k.Incarnation())
+	pcfg := k.Node.DB.PoolConfig(k.Incarnation())
+	if k.Redial {
+		pcfg.MaxConnLifetime = 1
+	}
+	pool, err := pgxpool.ConnectConfig(ctx, pcfg)
 	if err != nil {
 		return err
 	}
